@@ -78,6 +78,7 @@ impl World {
             fsinfo_writes_only: true,
             stats_called_unusable: false,
             faulted: false,
+            faulted_in_rename: false,
             stop: false,
             unmount_failed: false,
             geo,
@@ -289,15 +290,22 @@ fn session(w: &mut World, src: &mut dyn StepSource, trace: &mut Vec<Step>, max_s
     };
     w.last_parsed = None;
     let pre_end = w.disk.borrow().store.clone();
-    w.disk.borrow_mut().arm(FaultPlan { budget: 2_000_000, ..FaultPlan::default() });
+    let uh = crate::rng::hash_bytes(w.cfg.dev_seed ^ 0x0F0F, &w.stats.sessions.to_le_bytes());
+    let unmount_fault = how == 0 && !w.faulted && uh % 100 < u64::from(o.unmount_faults);
+    w.disk.borrow_mut().arm(FaultPlan { budget: 2_000_000, hard_at: if unmount_fault { Some(1 + (uh / 100) % 14) } else { None }, ..FaultPlan::default() });
     match how {
         0 => match guarded(|| fs.unmount()) {
             Guarded::Done(Ok(())) => {}
             Guarded::Done(Err(e)) => {
-                if !w.faulted {
+                if unmount_fault && !w.disk.borrow().injected.is_empty() {
+                    // the injected error came back; `unmount(self)` has dropped the file system, whose destructor ran the
+                    // same steps again on a device that works: the volume must be exactly as after a successful unmount
+                    w.stats.unmount_faults += 1;
+                } else if !w.faulted {
                     return Err(viol(&w.prop, "unmount-failed", format!("{:?}", e), w.step_no));
+                } else {
+                    w.unmount_failed = true;
                 }
-                w.unmount_failed = true;
             }
             Guarded::Panic(m) => return Err(viol(&w.prop, "unmount-panicked", m, w.step_no)),
             Guarded::Hang => return Err(viol(&w.prop, "unmount-hang", String::new(), w.step_no)),
@@ -317,9 +325,9 @@ fn session(w: &mut World, src: &mut dyn StepSource, trace: &mut Vec<Step>, max_s
             }
         }
     }
-    if o.free_count && !w.faulted && how < 2 && w.geo.fat_bits == 32 && crate::rng::hash_bytes(w.cfg.dev_seed, &w.stats.sessions.to_le_bytes()) % 5 == 0 {
+    if o.free_count && !w.faulted && how < 2 && w.geo.fat_bits == 32 && w.geo.n_clusters <= 2_000_000 && crate::rng::hash_bytes(w.cfg.dev_seed, &w.stats.sessions.to_le_bytes()) % 5 == 0 {
         let writes = w.disk.borrow().writes.clone();
-        oracle::unmount_crash_check(w, &pre_end, &writes)?;
+        oracle::crash_count_check(w, &pre_end, &writes, "unmount / drop")?;
     }
     oracle::account_writes(w, "unmount")?;
     oracle::after_session(w, how, &pre_end)?;
@@ -533,7 +541,7 @@ pub fn exec_step(w: &mut World, s: &mut Session, step: &Step) -> Result<(), Viol
             oracle::account_writes(w, "handle-drop")?;
         }
     }
-    let need_before = o.fail_atomic || o.write_audit || o.raw_diff || o.fat_copies || o.stamps || o.dirty_bit;
+    let need_before = o.free_count || o.fail_atomic || o.write_audit || o.raw_diff || o.fat_copies || o.stamps || o.dirty_bit;
     let before_store = if need_before { Some(w.disk.borrow().store.clone()) } else { None };
     let before = w.parsed()?;
     let plan = w.plan_for(step);
@@ -914,6 +922,14 @@ pub fn exec_step(w: &mut World, s: &mut Session, step: &Step) -> Result<(), Viol
             let mut done = 0usize;
             let mut spins = 0u32;
             let mut res: Result<(), E> = Ok(());
+            if data.is_empty() {
+                // a zero-length write is a call too: it must return 0 and change nothing
+                match lib!(h.f.write(&data)) {
+                    Ok(0) => {}
+                    Ok(n) => return Err(viol("C02", "write-count", format!("write of 0 bytes at {} returned {}", h.pos, n), step_no)),
+                    Err(e) => res = Err(map_err(&e)),
+                }
+            }
             while done < data.len() {
                 let r = lib!(h.f.write(&data[done..]));
                 match r {
@@ -1223,6 +1239,7 @@ pub fn exec_step(w: &mut World, s: &mut Session, step: &Step) -> Result<(), Viol
     if !injected.is_empty() {
         w.stats.hard_faults += injected.len() as u64;
         w.faulted = true;
+        w.faulted_in_rename = matches!(step.op, Op::Rename { .. });
         if o.io_errors {
             // C09: an error injected outside a destructor must come back as Error::Io carrying the storage's error
             let outside: Vec<u64> = injected.iter().filter(|i| !i.in_drop).map(|i| i.id).collect();
